@@ -63,6 +63,8 @@ for d in "$VERIF"/seeded/S*; do
   case "$(sed -n 's/.*"class": "\([a-z-]*\)".*/\1/p' "$d/meta.json" | head -1)" in
     input-level) run_case "input-level: $n" "$d/patch.diff" hold hold ;;
     seam)        run_case "seam (independent): $n" "$d/patch.diff" changed changed ;;
+    # wrong only when two calls overlap in time: the call-granular probe must stay quiet
+    seam-race)   run_case "seam, race (independent): $n" "$d/patch.diff" changed hold ;;
     *)           echo "selftest error: $d/meta.json has no class"; exit 2 ;;
   esac
 done
